@@ -135,4 +135,13 @@ CHECKS["C10"] = {
     "note": "shapes are fixed (dimension 1-3, rank-1 updates): dimension-genericity is not proved; LAPACK shim table, sympy and sign decisions of transcendental expressions by sampling are "
             "trusted; obligations sympy cannot simplify but that vanish at all sampled points are reported as bounded (numeric-only), never as proved; floats as reals.",
 }
+CHECKS["C11"] = {
+    "engine": "symla",
+    "technique": "contract-based verification by exact symbolic execution: the real gradient methods run on symbolic parameters and are compared with sympy's derivative of log|det view| and v^T view^-1 v (postcondition <grad, dtheta/dp> == df/dp for every parameter symbol), with path forking on symbolic branches",
+    "design_ref": "DESIGN.md section 7 C11",
+    "text": "All eight differentiable matrix classes with every option (both signs, both triangles, array and matrix-object factors, with/without inner matrix, any SoftAbs coefficient incl. the "
+            "large-argument branch by path forking, repeated eigenvalues, tuple structure of block matrices) are checked: the reported gradients equal the symbolic derivatives for all real "
+            "parameter values at the fixed shapes, have the parameter's shape, vanish outside a triangular parameter's triangle and are symmetric for symmetric-array parameters.",
+    "note": "fixed shapes (dimension 2, rank-1 updates, 3 blocks); shim table, sympy differentiation/simplification trusted; reals for floats; numeric-only equalities are reported as bounded.",
+}
 NOT_APPLICABLE = {}
